@@ -307,14 +307,21 @@ class MassMatrixAdaptor(Adaptor):
             "dtype": self.variance_estimator._mean.dtype,
             "device": self.variance_estimator._mean.device,
         }
+        # the variance follows the mass matrix, which need not have the dtype of the mean
+        info_variance = {
+            "dtype": self.variance_estimator._variance.dtype,
+            "device": self.variance_estimator._variance.device,
+        }
         self.variance_estimator._mean = torch.tensor(state_dict["mean"], **info)
-        self.variance_estimator._variance = torch.tensor(state_dict["variance"], **info)
+        self.variance_estimator._variance = torch.tensor(
+            state_dict["variance"], **info_variance
+        )
         if self._swap_every != 0:
             estimator2 = state_dict["estimator2"]
             self.variance_estimator2.samples = estimator2["samples"]
             self.variance_estimator2._mean = torch.tensor(estimator2["mean"], **info)
             self.variance_estimator2._variance = torch.tensor(
-                estimator2["variance"], **info
+                estimator2["variance"], **info_variance
             )
         if self._variance_window != 0:
             self._values = deque(
